@@ -1,7 +1,7 @@
 (* Run.v — top-level dispatch: TL (TN machine :: args).
    Machines: 1 CMS mem, 3 Bloom mem, 5 HLL mem, 7 Cuckoo mem. *)
 From GX.Model Require Import Base.
-From GX.Runner Require Import RunCMS RunCMS2 RunBloom RunHLL RunCuckoo RunTopK RunRedisCMS RunRedisHLL RunRedisBloom RunRedisTopK.
+From GX.Runner Require Import RunCMS RunCMS2 RunBloom RunHLL RunCuckoo RunTopK RunRedisCMS RunRedisHLL RunRedisBloom RunRedisTopK RunRedisCuckoo.
 
 Definition run_case (c : tok) : tok :=
   match tok_L c with
@@ -12,6 +12,7 @@ Definition run_case (c : tok) : tok :=
   | TN 5 :: args => run_hll_case args
   | TN 6 :: args => run_rhll_case args
   | TN 7 :: args => run_cuckoo_case args
+  | TN 8 :: args => run_rck_case args
   | TN 9 :: args => run_topk_case args
   | TN 10 :: args => run_rtopk_case args
   | _ => T_INVALID
